@@ -84,20 +84,28 @@ def _ref_match(j, s):
     return len(s) == 2 and s[1] == 'b'
 
 
-def k2_coverage(s1: str, s2: str, f1: int, f2: int, dedup: bool) -> bool:
+# orders in which the menu is handed over: as listed, and two whose sorting permutation is not its own inverse
+ORDERS = [(0, 1, 2, 3), (1, 2, 0, 3), (3, 0, 1, 2)]
+
+
+def k2_coverage(s1: str, s2: str, f1: int, f2: int, dedup: bool, order: int) -> bool:
     """
     pre: len(s1) <= 2 and len(s2) <= 2 and s1 != s2
-    pre: 1 <= f1 <= 3 and 1 <= f2 <= 3
+    pre: 1 <= f1 <= 3 and 1 <= f2 <= 3 and 0 <= order < len(ORDERS)
     post: __return__
     """
+    perm = ORDERS[0]
+    for k in range(len(ORDERS)):
+        if order == k:
+            perm = ORDERS[k]
     ex = Examples([s1, s2], [f1, f2])
-    got = rex_coverage(list(MENU), ex, dedup=dedup)
-    for j in range(len(MENU)):
+    got = rex_coverage([MENU[i] for i in perm], ex, dedup=dedup)
+    for pos, j in enumerate(perm):
         want = 0
         for s, f in ((s1, f1), (s2, f2)):
             if _ref_match(j, s):
                 want += 1 if dedup else f
-        if got[j] != want:
+        if got[pos] != want:
             return False
     return True
 
@@ -226,8 +234,9 @@ def _obs():
                   'symbolic sample pick; dedup symbolic', timeout=400,
                   stubs=['random -> FakeRandom (arbitrary subsets)', 'rexpy.ilist -> plain list']))
     obs.append(Ob('K2', 'k2_coverage', 'rex_coverage equals an independent count of full matches, with and without '
-                  'repeats', '2 distinct symbolic strings len<=2, frequencies 1..3, menu of %d concrete patterns '
-                  '(one unterminated)' % len(MENU), timeout=240))
+                  'repeats, whatever order the expressions are listed in', '2 distinct symbolic strings len<=2, '
+                  'frequencies 1..3, menu of %d concrete patterns (one unterminated) in 3 orders' % len(MENU),
+                  timeout=400))
     obs.append(Ob('K2', 'k2_matrices', 'terminate_patterns_and_sort is an anchoring permutation with correct '
                   'back-indexes; coverage_matrices entries equal frequency/1 exactly where the pattern matches',
                   '2 distinct symbolic strings len<=2, frequencies 1..3, %d concrete patterns' % len(MENU),
